@@ -25,6 +25,9 @@ class Run:
         hc.reset_globals()
         self.sc = scenario
         self.purpose_map: Dict[tuple, int] = {}
+        for r_, s_, p_ in scenario.get("purpose_map") or []:
+            # a network stack whose purpose ids are per (remote node, socket id), not the socket id itself
+            self.purpose_map[(r_, s_)] = p_
         self.stack = hc.RecordingStack(purpose_of=lambda remote, socket: self.purpose_map.get((remote, socket), socket))
         self.ex = hc.MonitoredExecutor(name="node", node_id=scenario.get("node_id", 0), step_limit=5000)
         self.ex.network_stack = self.stack
